@@ -255,7 +255,7 @@ let () =
           if show got <> show want then Printf.printf "%s MODEL-REFERENCE-DIFFERS %s\n" id (show want);
           Printf.printf "%s %s\n" id (show got)
         | "consumers" ->
-          (* <cmd I|D|A|M> <nflags> <hex>... (~ | E <n> <hex>...) <from schema> <to schema> *)
+          (* <cmd I|D|A|M|C> <nflags> <hex>... (~ | E <n> <hex>...) <from schema> <to schema> *)
           let cmd = next () in
           let nf = next_int () in
           let flags = times nf next_str in
@@ -265,7 +265,7 @@ let () =
             | s -> failwith ("env " ^ s)) in
           let from = parse_schema () in
           let to_ = parse_schema () in
-          let c = (match cmd with "I" -> CInspect | "D" -> CDiff | "A" -> CApply | "M" -> CMigrateDiff | s -> failwith ("cmd " ^ s)) in
+          let c = (match cmd with "I" -> CInspect | "D" -> CDiff | "A" -> CApply | "M" -> CMigrateDiff | "C" -> CClean | s -> failwith ("cmd " ^ s)) in
           let inv = { i_cmd = c; i_flags = flags; i_env = env } in
           let show_tab t =
             Printf.sprintf "T(%s){c=%s;i=%s}" (hexb t.t_name)
